@@ -119,6 +119,11 @@ def call_gs(inst, oriented, zero_indexed, dtype=None, ctx=None):
     else:
         rule = GaleShapley(resident_oriented=oriented, zero_indexed=zero_indexed)
     pr, ph = StrictProfile.of(R), StrictProfile.of(H)
+    if ctx is not None:
+        # the profile VIEW objects persist as well (a later case refills the same buffers and passes the same view objects)
+        views = ctx.setdefault("views", {})
+        pr = views.setdefault(("R", id(R)), pr)
+        ph = views.setdefault(("H", id(H)), ph)
     if ctx is not None and ctx["rng"].random() < 0.3:
         # the very same argument objects are first handed to a call in the OTHER orientation: what an earlier call did with
         # its arguments must not leak into a later one
